@@ -6,6 +6,8 @@ import (
 	"encoding/json"
 	"flag"
 	"fmt"
+	"github.com/aws/aws-sdk-go/aws/awserr"
+	"os"
 	"sort"
 	"strings"
 	"time"
@@ -88,7 +90,9 @@ func entries(name string) map[string]string {
 }
 
 // dangling walks every version object present in the bucket and returns node links that do not exist
-func (c *vacCase) dangling(prefixes ...string) []string {
+func (c *vacCase) dangling(prefixes ...string) []string { return danglingIn(c.store, prefixes...) }
+
+func danglingIn(store *fakes3.Store, prefixes ...string) []string {
 	var bad []string
 	seen := map[string]bool{}
 	var walk func(ver, link string)
@@ -97,7 +101,7 @@ func (c *vacCase) dangling(prefixes ...string) []string {
 			return
 		}
 		seen[link] = true
-		b, ok := c.store.Get("p/s3db-rows/node/" + link)
+		b, ok := store.Get("p/s3db-rows/node/" + link)
 		if !ok {
 			bad = append(bad, ver+" -> node "+link)
 			return
@@ -112,8 +116,8 @@ func (c *vacCase) dangling(prefixes ...string) []string {
 		}
 	}
 	for _, pfx := range prefixes {
-		for _, k := range c.store.Keys(pfx) {
-			b, _ := c.store.Get(k)
+		for _, k := range store.Keys(pfx) {
+			b, _ := store.Get(k)
 			var root struct {
 				Link *string
 			}
@@ -146,7 +150,11 @@ func (c *vacCase) run() {
 		dbs, tabs = append(dbs, db), append(tabs, t)
 	}
 	marks := []time.Time{time.Now()}
-	tick := func() { time.Sleep(300 * time.Microsecond); marks = append(marks, time.Now()); time.Sleep(300 * time.Microsecond) }
+	tick := func() {
+		time.Sleep(300 * time.Microsecond)
+		marks = append(marks, time.Now())
+		time.Sleep(300 * time.Microsecond)
+	}
 	steps := 4 + c.r.Intn(14)
 	for s := 0; s < steps; s++ {
 		i := c.r.Intn(nw)
@@ -345,6 +353,57 @@ func (c *vacCase) run() {
 				return
 			}
 		}
+	}
+	// every single storage fault inside vacuum (the process lives on): whatever vacuum answers, the same
+	// connection still reads the same rows, stays writable, and nothing current refers to a deleted object
+	fcut := cutoff
+	if c.r.Bool() {
+		fcut = time.Now().Add(time.Hour)
+	}
+	for k := 0; k <= 40 && !c.failed; k++ {
+		c.store.Restore(snap)
+		db := sqlh.Open()
+		var vcl *fakes3.Client
+		t2, err := c.mk(db, false, "vf", func(x *fakes3.Client) { vcl = x })
+		if err != nil {
+			c.fail(fmt.Sprintf("open before fault run %d: %v", k, err))
+			db.Close()
+			return
+		}
+		_, mm := vcl.Counts()
+		hit := false
+		vcl.Fault = func(idx, midx int, op, key string) error {
+			if !hit && (op == "PUT" || op == "DEL") && midx == mm+k {
+				hit = true
+				return awserr.New("InternalError", "injected fault", nil)
+			}
+			return nil
+		}
+		verr := s3db.Vacuum(context.Background(), t2, fcut)
+		vcl.Fault = nil
+		if !hit {
+			db.Close()
+			break
+		}
+		c.st.Count("vacuum_fault_runs")
+		stage := fmt.Sprintf("vacuum with mutation %d failing once (vacuum answered %v)", k, verr)
+		if got := sqlh.QS(db, fmt.Sprintf(`select k,a from "%s" order by k`, t2)); got != rowsBefore {
+			c.fail(fmt.Sprintf("%s: rows through the vacuuming connection changed: %q -> %q", stage, rowsBefore, got))
+		} else if err := sqlh.Exec(db, fmt.Sprintf(`insert into "%s" values(?,?)`, t2), 9998, "after-fault"); err != nil {
+			c.fail(fmt.Sprintf("%s: the vacuuming connection cannot write any more: %v", stage, err))
+		} else if fr, err := c.freshRows(); err != nil || !strings.Contains(fr, "I:9998") || strings.Replace(fr, " | I:9998,T:61667465722d6661756c74", "", 1) != rowsBefore && fr != "I:9998,T:61667465722d6661756c74" {
+			c.fail(fmt.Sprintf("%s: a connection opened afterwards sees %q (err %v), want %q plus the row written after the fault", stage, fr, err, rowsBefore))
+		} else if d := c.dangling("p/s3db-rows/root/current/"); len(d) > 0 {
+			c.fail(fmt.Sprintf("%s: the current version refers to deleted objects: %v", stage, d[:min(len(d), 3)]))
+			if os.Getenv("VAC_TRACE") != "" {
+				for _, q := range c.store.Log() {
+					if q.Client == "vf" {
+						fmt.Fprintln(os.Stderr, q.String())
+					}
+				}
+			}
+		}
+		db.Close()
 	}
 	c.st.Distinct(strings.Join(c.log, "|"))
 }
